@@ -70,6 +70,10 @@ fn features(p: &JPath) -> Vec<&'static str> {
     f
 }
 
+fn has_empty_name(p: &JPath) -> bool {
+    features(p).contains(&"empty-name")
+}
+
 fn names_need_no_quoting(p: &JPath) -> bool {
     fn lit_ok(l: &Lit) -> bool {
         match l {
@@ -150,11 +154,30 @@ pub fn totality(ctx: &mut Ctx, raw: &[u8], class: &str, must_reject: bool) {
     ctx.evals += 1;
     ctx.count(&format!("raw.{}", class));
     let info = || format!("class={} input={:?} bytes={}", class, lossy(raw), hex(raw));
-    match guard(|| parse_json_path(raw).map(|p| format!("{:?}", p)).map_err(|_| ())) {
+    match guard(|| {
+        parse_json_path(raw)
+            .map(|p| {
+                // whatever is accepted must print to something that parses back to the same structure
+                // when nothing in it needs quoting or escaping
+                let conv = fromlib::path(&p).ok();
+                let printed = format!("{}", p);
+                let same = parse_json_path(printed.as_bytes()).map(|q| q == p).unwrap_or(false);
+                (format!("{:?}", p), conv, printed, same)
+            })
+            .map_err(|_| ())
+    }) {
         Err(p) => ctx.panic_violation("parse_json_path(raw)", &p, &info),
-        Ok(Ok(ast)) => {
+        Ok(Ok((ast, conv, printed, same))) => {
             if must_reject {
                 ctx.violation("parse/accepts-leftover", || format!("accepted as {} ; {}", ast, info()));
+            }
+            if let Some(c) = conv {
+                if names_need_no_quoting(&c) && !refpath::has_arith(&c) && !has_empty_name(&c) {
+                    ctx.count("print-parse.roundtrips(raw)");
+                    if !same {
+                        ctx.violation("print/reparse-differs/raw-input", || format!("printed {:?} does not parse back to the same structure ; {}", printed, info()));
+                    }
+                }
             }
         }
         Ok(Err(())) => {}
@@ -201,6 +224,20 @@ pub fn raw_inputs(ctx: &mut Ctx, rng: &mut Rng, valid: &str) {
         let must = matches!(suf.trim(), ")" | "]" | "}" | "\"");
         totality(ctx, t.as_bytes(), "leftover", must);
     }
+    // index forms with extreme or oddly signed integers (must not panic; accepted ones must print faithfully)
+    let n = *rng.pick(&["2147483647", "-2147483648", "2147483648", "-2147483649", "99999999999", "-0", "+5", "-1", "0", "4294967296", "18446744073709551616"]);
+    let m = *rng.pick(&["2147483647", "-2147483648", "-2147483647", "2147483648", "1", "-1", "0"]);
+    for t in [
+        format!("$[{}]", n),
+        format!("$[last - {}]", m),
+        format!("$[last + {}]", m),
+        format!("$[last-{}]", m),
+        format!("$[{} to {}]", n, m),
+        format!("$[last - {} to last + {}]", m, m),
+        format!("$.a[{}, last - {}] ? (@ > {})", n, m, n),
+    ] {
+        totality(ctx, t.as_bytes(), "index-extremes", false);
+    }
     // random bytes
     let l = rng.below(10);
     let raw: Vec<u8> = (0..l).map(|_| rng.next_u64() as u8).collect();
@@ -230,9 +267,9 @@ pub fn run(ctx: &mut Ctx) {
         let mut path = if i % 8 == 7 { arith_path(&pg, &mut rng) } else { pg.path(&mut rng, &cfg) };
         strip_empty_names(&mut path);
         let styles = [
-            ("plain", RStyle { spacing: false, kwcase: false, quoting: false }),
-            ("spacing+kwcase", RStyle { spacing: true, kwcase: true, quoting: false }),
-            ("spacing+quoting", RStyle { spacing: true, kwcase: false, quoting: true }),
+            ("plain", RStyle { spacing: false, kwcase: false, quoting: false, esc: false }),
+            ("spacing+kwcase", RStyle { spacing: true, kwcase: true, quoting: false, esc: false }),
+            ("spacing+quoting+escapes", RStyle { spacing: true, kwcase: false, quoting: true, esc: true }),
         ];
         let mut plain_text = String::new();
         for (name, st) in styles.iter() {
